@@ -1282,6 +1282,14 @@ class ConnectionBase(object):
             self.stats.dropped += 1
             return False
 
+        # before a session key is agreed on the only datagram that is
+        # accepted is the single handshake hello sent by the remote side
+        if self.session_key_bytes is None:
+            expected = PacketType.CLIENT_HELLO if self.isServer else PacketType.SERVER_HELLO
+            if pkt.hdr.count != 1 or pkt.hdr.pkt_type != expected:
+                self.stats.dropped += 1
+                return False
+
         try:
             # TODO: log warning for packet flooding
             # if inserting dropped unacked bits then those packets will time out
